@@ -567,6 +567,28 @@ def check_include_bytes(ctx, asm):
                     elif got != exp:
                         ctx.cex('include_bytes scenario {} run from {}/ emits other bytes than the file the search found'
                                 .format(name, cwd_rel), inp, got.hex()[:200], exp.hex()[:200], m)
+        # ONE non-empty include_dirs list handed to several calls, and a nested include from another directory: the file embedded
+        # is the one NEXT TO THE FILE THAT HOLDS THE DIRECTIVE (after the -i directories), never one lying next to a file read earlier
+        sroot = os.path.join(root, 'shared')
+        files = {'inc/unrelated.bin': b'U', 'a/main.asm': b'include_bytes blob.bin\n', 'a/blob.bin': b'AAAA',
+                 'b/main.asm': b'db 9\ninclude_bytes blob.bin\n', 'b/blob.bin': b'BB',
+                 'c/main.asm': b'db 7\ninclude sub/part.asm\n', 'c/blob.bin': b'WRONG', 'c/sub/part.asm': b'include_bytes blob.bin\n',
+                 'c/sub/blob.bin': b'RIGHT'}
+        make_tree(sroot, files)
+        shared = [os.path.join(sroot, 'inc')]
+        for prog, want in (('a', b'AAAA'), ('b', b'\x09BB'), ('c', b'\x07RIGHT'), ('b', b'\x09BB'), ('a', b'AAAA')):
+            ctx.evaluations += 1
+            ctx.count('incbytes-shared-list')
+            st, got = run_line(asm, os.path.join(sroot, prog, 'main.asm'), include_dirs=shared)
+            inp = {'kind': 'incbytes-shared', 'files': {k: v.hex() for k, v in files.items()}, 'program': prog}
+            if (st, got) != ('ok', want):
+                ctx.cex('include_bytes of {}/main.asm with a search-path list shared by several calls emits {} instead of the file next to the including file ({})'.format(
+                    prog, got.hex() if st == 'ok' else got, want.hex()), inp, got.hex() if st == 'ok' else got, want.hex(),
+                    {'kind': 'include-bytes', 'cwd': 'shared-list'})
+                break
+        if shared != [os.path.join(sroot, 'inc')]:
+            ctx.cex('assemble() changed the include_dirs list of its caller', {'kind': 'incbytes-shared', 'files': {}, 'program': 'list'},
+                    [d.replace(sroot, '<root>') for d in shared], 'unchanged', {'kind': 'caller-list-changed'})
         # the embedded file is read when the program is assembled: rewritten between two calls of ONE process (same
         # length, other contents; also another length), every call must embed what is on disk at that moment
         sroot = os.path.join(root, 'gen')
@@ -736,6 +758,21 @@ def replay(ctx, rec):
     asm = harness.real_asm()
     inp = rec['input']
     kind = inp.get('kind')
+    if kind == 'incbytes-shared':
+        root = tempfile.mkdtemp(prefix='bbincs')
+        try:
+            files = {p: bytes.fromhex(d) for p, d in inp['files'].items()}
+            if not files:
+                return False
+            make_tree(root, files)
+            shared = [os.path.join(root, 'inc')]
+            bad = False
+            for prog, want in (('a', b'AAAA'), ('b', b'\x09BB'), ('c', b'\x07RIGHT'), ('b', b'\x09BB'), ('a', b'AAAA')):
+                if run_line(asm, os.path.join(root, prog, 'main.asm'), include_dirs=shared) != ('ok', want):
+                    bad = True
+            return bad or shared != [os.path.join(root, 'inc')]
+        finally:
+            shutil.rmtree(root, ignore_errors=True)
     if kind in ('incbytes', 'incbytes-string'):
         st, got, exp = replay_incbytes(asm, inp)
         if kind == 'incbytes-string':
